@@ -8,8 +8,6 @@ Local Open Scope list_scope.
 (* the payload classes, as a test on the core of the payload *)
 Definition kfp (c : expr) (env : renv) (sy : symtab) : bool :=
   match c with
-  | XTuple (_ :: _) => true
-  | XPath (_ :: _ :: _) => true
   | XPath [x] =>
       match lookup x sy with
       | None => true
@@ -22,15 +20,14 @@ Definition kfp (c : expr) (env : renv) (sy : symtab) : bool :=
   | _ => false end.
 Lemma kf_payload_kfp s : kf_payload s = kfp (pcore s) (s_env s) (s_sy s).
 Proof.
-  unfold kf_payload, kf_tuple_payload, kf_path_payload, kf_name_fallback, kf_last_segment, kf_ctor_guess, kf_scope, kfp.
+  unfold kf_payload, kf_name_fallback, kf_last_segment, kf_ctor_guess, kf_scope, kfp.
   destruct (pcore s) as [r m a|segs|b nm|l|pth|u|f a|es|ss|th el|arms|ss|ss|ss|x|x|]; try reflexivity.
   - destruct segs as [|x [|y r]]; try reflexivity.
     destruct (lookup x (s_sy s)) as [u|]; destruct (rlookup x (s_env s)) as [[t| |]|]; try reflexivity.
     cbn [orb]. destruct (negb (simple_type t) && str_eqb u (type_name t)); reflexivity.
-  - destruct es; reflexivity.
 Qed.
-(* shapes syn cannot produce: an empty path *)
-Definition degenerate (c : expr) : bool := match c with XPath [] | XStruct [] => true | _ => false end.
+(* a shape syn cannot produce: a struct expression with an empty path *)
+Definition degenerate (c : expr) : bool := match c with XStruct [] => true | _ => false end.
 
 Definition payload_ok (p : expr) (env : renv) (sy : symtab) : Prop :=
   match evident_type p env with
@@ -51,18 +48,18 @@ Proof.
     + change (xdepth (XMethod r m args)) with (S (xdepth r)) in Hd. cbn [core] in Hd. rewrite Em in Hd. exact Hd.
   - (* path *)
     cbn [xdepth core] in Hk, Hd. destruct segs as [|x [|y r]].
-    + discriminate Hd.
+    + reflexivity.
     + cbn [kfp] in Hk. destruct (lookup x sy) as [u|] eqn:El; [|discriminate Hk].
       destruct (rlookup x env) as [[t| |]|] eqn:Er; try discriminate Hk.
       apply orb_false_iff in Hk. destruct Hk as [_ Hk]. apply negb_false_iff in Hk. apply str_eqb_eq in Hk. left. exact Hk.
-    + discriminate Hk.
+    + reflexivity.
   - (* literal *) destruct l; try (left; reflexivity). reflexivity.
   - (* struct *) destruct path as [|a r]; [discriminate Hd|]. left. reflexivity.
   - (* reference *)
     apply IHu.
     + change (xdepth (XRef u)) with (S (xdepth u)) in Hk. rewrite core_ref in Hk. exact Hk.
     + change (xdepth (XRef u)) with (S (xdepth u)) in Hd. rewrite core_ref in Hd. exact Hd.
-  - (* tuple *) destruct es as [|e0 r]; [right; split; reflexivity|]. discriminate Hk.
+  - (* tuple *) destruct es as [|e0 r]; [right; split; reflexivity|]. reflexivity.
 Qed.
 
 (* every documented site outside the payload classes carries the right payload string *)
@@ -78,12 +75,9 @@ Require Import TT.Proofs.C12Proofs TT.Proofs.C12Exact.
    site lies outside the payload classes carries the payload string of its evident type *)
 Theorem listeners_project : forall p, in_domain p = true ->
   let names := site_names (project_sites p) in
-  (forall n, In n names -> forallb name_char n = true) ->
-  (forall n, In n names -> kf_dup_name names n = false) ->
-  (forall n, In n names -> kf_ident_chars n = false) ->
   (forall n, In n names -> kf_collision names n = false) ->
   let ls := model_listeners (project_events p) in
-  map ml_event ls = names /\ NoDup (map ml_event ls) /\
+  map ml_event ls = first_names names /\ NoDup (map ml_event ls) /\
   (forall n, In n names -> exists x, In x ls /\ ml_event x = n /\ forall y, In y ls -> ml_event y = n -> y = x) /\
   (forall x, In x ls -> is_legal_binding_name (ml_ident x) = true) /\
   NoDup (map ml_ident ls) /\
@@ -91,10 +85,10 @@ Theorem listeners_project : forall p, in_domain p = true ->
      t = infer_payload (s_payload s) (s_sy s) /\
      (kf_payload s = false -> degenerate (pcore s) = false -> payload_ok (s_payload s) (s_env s) (s_sy s))).
 Proof.
-  intros p Hd names H1 H2 H3 H4 ls.
+  intros p Hd names H4 ls.
   pose proof (event_names_exact p Hd) as Hn.
   pose proof (listeners_partial (project_events p)) as L. cbv zeta in L. rewrite Hn in L.
-  specialize (L H1 H2 H3 H4). destruct L as [A [B [C [D E]]]].
+  specialize (L H4). destruct L as [A [B [C [D E]]]].
   repeat (split; [assumption|]).
   intros n t Hin. rewrite (walker_exact p Hd) in Hin. apply in_map_iff in Hin. destruct Hin as [s [Hs Hin]].
   unfold ev_of in Hs. inversion Hs; subst. exists s. repeat split; auto. apply payload_site.
